@@ -103,6 +103,8 @@ pub fn eval(case: &str) -> Out {
                 // serialization of the cleared header = pre-image + one zero byte (empty solution / empty witness stack)
                 let sc = serialize(&c);
                 if sc.last() != Some(&0) || bh != sha256d::Hash::hash(&sc[..sc.len() - 1]).to_byte_array() { fail = Some("blockhash-preimage|block hash is not the double-SHA256 of the header serialization without solution/witness".to_string()); }
+                // independent of the crate's encoder: the reference pre-image (txgen::ref_header without solution / signblock witness)
+                else if h.version < 0x8000_0000 && bh != sha256d::Hash::hash(&{ let mut o = Vec::new(); ref_header(&mut o, &h, false); o }).to_byte_array() { fail = Some("blockhash-not-consensus-hash|block hash is not the double-SHA256 of the consensus serialization (reference encoder) of the header without solution / signblock witness".to_string()); }
                 else if h.is_dynafed() != (sc[3] & 0x80 != 0) { fail = Some("dynafed-bit|dynafed marker bit".to_string()); }
                 else {
                     for (witness_only, name, h2) in header_edits(&h) {
@@ -129,7 +131,7 @@ pub fn gen(rng: &mut ChaCha20Rng, n: usize, thorough: bool) -> Vec<Case> {
         let mut tags = vec!["src:structured".to_string()];
         if k % 4 == 3 {
             let h = c01::rheader(rng, &mut tags);
-            out.push(rename(c01::mk("header", &serialize(&h), tags, true)));
+            out.push(rename(c01::mk("header", &ref_header_vec(&h), tags, true)));
         } else {
             let big = thorough && rng.gen_range(0..4) == 0; let tx = rtx(rng, Feat { big, no_witness: false }, &mut tags);
             let nt = !tx.input.is_empty() || !tx.output.is_empty();
